@@ -44,7 +44,7 @@ def table(n, d_in, n_out, n_eq, flat):
         val = (100.0 + r) if flat else (100.0 + r)[:, None]
     else:
         val = np.stack([100.0 * (m + 1) + r for m in range(n_out)], axis=1)
-    eq = {f"e{j}": ((1000.0 * (j + 1) + r) if (flat and j == 0) else (1000.0 * (j + 1) + r)[:, None]) for j in range(n_eq)}
+    eq = {f"e{j}": ((1000.0 * (j + 1) + r) if (flat and j == 0) else (1000.0 * (j + 1) + r)[:, None]) for j in reversed(range(n_eq))}
     return jnp.asarray(pin), jnp.asarray(val), {k: jnp.asarray(v) for k, v in eq.items()}
 
 
@@ -69,8 +69,10 @@ def cases(tier, seed):
             if not any(subset):
                 continue
             for n_eq in (0, 1):
-                for key in keys[:2]:
-                    out.append(dict(type="multi", n=n, b=b, has=list(subset), n_eq=n_eq, key=key))
+                for ki, key in enumerate(keys[:2]):
+                    # the three user dictionaries have the same keys but may have been filled in different orders
+                    for order in ((0, 0, 0), (1, 2, 0)) if ki == 0 else ((2, 1, 1),):
+                        out.append(dict(type="multi", n=n, b=b, has=list(subset), n_eq=n_eq, key=key, order=list(order)))
     out.sort(key=lambda c: (c["type"] != "obs", c["n"]))
     return out
 
@@ -208,6 +210,11 @@ def run_case(case):
             pins[nm], vals[nm], eqs[nm] = p, va, e
         else:
             pins[nm], vals[nm], eqs[nm] = None, None, {}
+    perms = [["u", "v", "w"], ["w", "u", "v"], ["v", "w", "u"]]
+    od = case.get("order", [0, 0, 0])
+    pins = {k: pins[k] for k in perms[od[0]]}
+    vals = {k: vals[k] for k in perms[od[1]]}
+    eqs = {k: eqs[k] for k in perms[od[2]]}
     g0 = jinns.data.DataGeneratorObservationsMultiPINNs(b, pins, vals, observed_eq_params_dict=eqs, key=key)
     site = "DataGeneratorObservationsMultiPINNs"
 
